@@ -174,7 +174,7 @@ theorem validateV2Siacoins_ok {ms : Mid} {t : Txn2} (h : validateV2Siacoins ms t
     rw [bind_eq_ok] at hh; obtain ⟨tax, htax, hh⟩ := hh
     rw [addC_ok] at ha hb hh
     have := v2Tax_ok htax
-    rw [hh.2, hb.2, ha.2, this]; unfold Fc2.val; simp only []; cur_omega) _ _ _ hout1
+    rw [hh.2, hb.2, ha.2, this]; unfold Fc2.val; simp only []; c1_omega) _ _ _ hout1
   have e3 := foldlM_sum2 _ resRoll resCost (by
     intro s x r hh
     obtain ⟨i, o⟩ := s
@@ -235,7 +235,7 @@ theorem validateV2Siacoins_ok {ms : Mid} {t : Txn2} (h : validateV2Siacoins ms t
   have e3b' : out2 = out1 + (t.ress.map resCost).sum := e3b
   have h4 := houtS.2
   clear e3a e3b hseen' hseen hin0 hout0 hout1 hpr h houtS
-  cur_omega
+  c1_omega
 
 -- ------------------------------------------------------------------ siafunds
 
@@ -430,7 +430,7 @@ def validateRevision2Core (ms : Mid) (cur rev : Fc2) (sigCurOk : Bool) : VM Unit
   else if rev.expHeight ≤ rev.proofHeight then reject "leaves no time between proof height and expiration height"
   else if sigCurOk then pure () else reject "has invalid signature"
 
-theorem validateRevision2_eq (ms : Mid) (e : Fc2Elem) (rev : Fc2) (sg : Bool) :
+theorem validateRevision2_eq_c1 (ms : Mid) (e : Fc2Elem) (rev : Fc2) (sg : Bool) :
     validateRevision2 ms e rev sg = validateRevision2Core ms (curFc2 ms e) rev sg := rfl
 
 theorem validateRevision2Core_ok {ms : Mid} {cur rev : Fc2} {sg : Bool}
